@@ -48,7 +48,7 @@ add("C02", "exploration",
     "Every graph on every grid up to 3x3 (thorough: up to 3x4/4x3, 131072 graphs each) x every ordered (start,end) pair is solved by the real A* "
     "and compared with reference BFS distances: endpoints, adjacency along connections, exact minimal length, ValueError iff disconnected, "
     "one-cell path for start==end; also through SolvedMaze.from_targeted_lattice_maze, on structured mazes up to 20x20, on one- and two-cell-wide grids with a side of 129..300 cells, "
-    "and with same-cell-count shapes interleaved in one fresh interpreter (one maze object per graph for all its pairs). Also corridors / two-wide ladders of 1100 (3001, 10007) cells and slices of the task lists under other interpreter hash seeds.",
+    "and with same-cell-count shapes interleaved in one fresh interpreter (one maze object per graph for all its pairs). Also corridors / two-wide ladders of 1100 (3001) cells and slices of the task lists under other interpreter hash seeds.",
     "Small-scope: larger grids only via structured families.", "5/C02")
 
 add("C08", "model_checking",
